@@ -7,6 +7,8 @@ props = [json.loads(l)['id'] for l in open(os.path.join(V, 'properties.jsonl'))]
 COMMON_NOTE = ("Trusted: Coq 8.16.1 kernel + VM (vm_compute), no axioms (Print Assumptions: closed); tools/py2coq.py and "
                "coq/Prelude/Py.v (Python semantics of the translated subset); the correspondence harness. ")
 
+KERNEL_NOTE = ("Trusted: Coq 8.16.1 kernel + VM (vm_compute), no axioms (Print Assumptions: closed); the correspondence harness (no source translation is involved for this property). ")
+
 GEN_NOTE = (COMMON_NOTE + "The generator and the generated code are MODELLED (deep embedding: Model/Spec.v raw XML AST, Model/Elab.v elaboration mirroring the generator's rules, "
    "Model/Ser.v / Model/Deser.v statement-level reference semantics over the writer/reader models) and tied to /repo by running the REAL generator on every "
    "specification tree (hand-written mini-eo corpus + grammar-based random trees with a printed feature matrix) and executing the generated classes; identifier hygiene, "
@@ -37,10 +39,10 @@ CHECKS = {
         "implied-length arrays of fixed-size / progress-making elements, no separating-delimiter array without length before a break, fresh names, length fields referenced by exactly their field) and "
         "valid_objB (in range, cp1252-encodable, no U+00FF where sanitised or padded, no '~' in encoded strings, no 0xFF byte/blob values inside or ahead of chunked sections, no empty optional tail or "
         "empty delimited element, exact shape) imply: serialize succeeds and deserialize of the bytes returns the same object field by field, consumes exactly the bytes, byte_size = count; framed "
-        "generalisations for nested classes in either mode; stage A is included in stage B; every exclusion has a necessity witness (does not round-trip). Tie: generated code round trips on corpus + "
+        "generalisations for nested classes in either mode; stage A is included in stage B; the lossy-character and framing exclusions have necessity witnesses (objects that do not round-trip); the static check is knowingly conservative beyond them. Tie: generated code round trips on corpus + "
         "random trees; the theorem's domain is decided in Coq per (spec, object) pair, must be non-empty, and model and code must agree on every case inside or outside it.",
    technique="Coq proof (reader invariant valid in both modes with stale-but-valid break cache, frame over the pure wire format, induction on instructions and fuel) + differential round-trip correspondence with domain membership decided in Coq",
-   note=GEN_NOTE + "Still refused by wire_okB although they round-trip: non-chunked arrays/structs ahead of a chunked section (the 'clean' flag is conservative), a dummy that is not the sole instruction, an optional length field.", ref="8 (C01)"),
+   note=GEN_NOTE + "Still refused although they round-trip: non-chunked arrays/structs ahead of a chunked section (the 'clean' flag of valid_objB is conservative), a dummy that is not the sole instruction, an optional length field.", ref="8 (C01)"),
  'C02': dict(
    text="Coq theorems over ALL elaborated specs and ALL objects (Properties/C02.v): the statement-level semantics of generated serializers equals a pure declarative wire-format "
         "function enc (ser = Ok iff enc = Some, same bytes, mode kept); document order = concatenation of per-instruction outputs; arrays in closed form (trailing / separating "
@@ -53,13 +55,14 @@ CHECKS = {
    text="Coq theorems over ALL envs, classes, reader states / byte strings (Properties/C03.v): every reader state a deserializer reaches satisfies the invariant 0<=chunk start<=pos<=len "
         "with a valid break cache and is over the same data; every primitive read is a slice at the position bounded by remaining; on a well-formed class (decidable wf_class, evaluated "
         "for every elaborated tree) the ONLY errors are the negative-length ValueError or fuel exhaustion; optional fields are absent exactly when nothing remains; enum ordinals are preserved; "
-        "exhausted reads give 0/empty. Termination (Properties/C03T.v): progress_okT E cls mode (decidable, evaluated per class on every run; refuses only the F4 shape on all generated trees) implies the "
+        "exhausted reads give 0/empty. Termination (Properties/C03T.v): progress_okT E cls mode (decidable, evaluated per class on every run; the classes it refuses are listed in the evidence - in the runs so far only the F4 tree's Holder) implies the "
         "deserializer never runs out of fuel, hence with wf_class the only possible failure is the documented ValueError; delimited loops always terminate (chunk start strictly advances). Termination for EVERY accepted "
         "spec is false (known finding F4: the model returns EFuel, the code hangs). "
         "Acceptance implies well-formedness (Properties/C03W.v): for every specification the (model of the) generator accepts, wf_pkg follows under decidable hypotheses that spell out "
-        "'non-degenerate' (distinct class names, no length field named like a switch's _data member, no zero-size array elements), no recursive struct, no referenced optional length field (F12); "
-        "each hypothesis is shown necessary by an accepted tree; the check evaluates them on every accepted tree. "
-        "Tie: generated deserializers vs model on valid serializations, every prefix, 0x00/0xFE/0xFF-biased edits, junk, random bytes, both entry modes.",
+        "'non-degenerate' (distinct class names, no enum named like a class, no length field named like a switch's _data member, no zero-size array elements), no recursive struct, no referenced optional length field (F12); "
+        "each of the six hypotheses is shown necessary by an accepted tree violating only it; with progress_okT added, the only failure of every struct/packet class on any bytes (non-chunked entry) is the documented ValueError; "
+        "the check evaluates the hypotheses on every accepted tree. Way 1 for the emitted deserialize methods (Properties/C03R.v): the statements parsed from the generated text, run by the interpreter of Model/PyStmtR.v, equal Deser.v up to the whole call tree. "
+        "Tie: translation validation + way 1 of the emitted code per tree; generated deserializers vs model on valid serializations (non-chunked entry), every prefix and 0x00/0xFE/0xFF-biased edits / junk (each in one randomly chosen entry mode), random bytes in both entry modes.",
    technique="Coq proof (reader invariant preserved through the deserializer semantics, error-kind analysis under a decidable well-formedness check) + differential correspondence on hostile bytes",
    note=GEN_NOTE + "'Deserializations whose hostile length fields make CPython loop thousands of times are checked by the oracle but excluded from the in-Coq evaluation (marked heavy).", ref="8 (C03)"),
  'C14': dict(
@@ -69,15 +72,15 @@ CHECKS = {
         "EnumMeta): enum classes made by the REAL generator, by class source and by the functional API are called with declared/neighbouring/limit/huge/negative integers; identity, isinstance, ==, hash, "
         "name, value, list(E), __members__ are observed, and enum-typed fields/arrays (with underlying-type overrides) are written and read back through generated structs.",
    technique="Coq proof (lookup/first-index lemmas over the class-state model, decimal injectivity) + differential correspondence with CPython enum behaviour on generated and hand-made classes",
-   note=COMMON_NOTE + "Only CPython 3.12.1 is available; int.__eq__/__hash__ are runtime behaviour (observed, not proved).", ref="8 (C14)"),
+   note=KERNEL_NOTE + "Only CPython 3.12.1 is available; int.__eq__/__hash__ are runtime behaviour (observed, not proved).", ref="8 (C14)"),
  'C18': dict(
    text="Coq theorems (Properties/C18.v) over ALL import-line lists and ALL file lists: rendering of imports is invariant under permutation and duplication of the set iteration (hash seed), "
         "complete, duplicate-free and future-first; with a valid layout (distinct output paths) the files written do not depend on the walk order, nor on what the output directory held, re-running is "
         "idempotent, other paths are untouched; every declared type has its module file and its directory's __init__ star-imports it; snake_case yields no upper-case letters. Partial by nature: that the "
-        "emitted text is valid Python and imports is decided by running CPython. Tie: the REAL generator runs 11 times per tree (PYTHONHASHSEED 0/1/2/random, three patched os.walk orders, reversed "
-        "creation order, re-run into the same directory, pre-populated directory) -> byte-identical files; the package is imported and every declared name checked; the model predicts the file set and __init__ lines.",
+        "emitted text is valid Python and imports is decided by running CPython. Tie: the REAL generator runs 14 times per tree (PYTHONHASHSEED 0/1/2/random, four patched os.walk orders, one generator object used twice and after a failed run, reversed "
+        "creation order, re-run into the same directory, pre-populated directory, protocol.py generate / clean) -> byte-identical files; the package is imported and every declared name checked; the model predicts the file set and __init__ lines.",
    technique="Coq proof (sorting/permutation invariance, fold-of-writes with distinct paths) + repeated real generation under varied seeds/orders + import of the result",
-   note=COMMON_NOTE + "Contents of class modules are abstract in the model (their determinism is observed byte-for-byte); cross-directory cyclic type references (circular imports) are outside valid trees.", ref="8 (C18)"),
+   note=KERNEL_NOTE + "Contents of class modules are abstract in the model (their determinism is observed byte-for-byte); cross-directory cyclic type references (circular imports of the generated packages) are a known finding, reported as such.", ref="8 (C18)"),
  'C19': dict(
    text="Coq theorems over ALL envs, heaps, instances and histories of public operations and caller-side mutations (Properties/C19.v, object/heap model Model/ObjModel.v): assignment to any property "
         "is rejected and changes nothing; a constructed instance (array arguments copied by tuple, other arguments immutable as annotated) and every deserialized instance is frozen (no slot refers to a "
@@ -110,8 +113,9 @@ CHECKS = {
    note=GEN_NOTE, ref="8 (C16)"),
  'C17': dict(
    text="The acceptance rules of the generator are a Coq function elab (Model/Elab.v, mirroring type_factory / object / field / switch / code_generator checks in order); "
-        "Properties/C17.v states, per rule of the catalogue, that a specification exhibiting the violation at ANY position of ANY class body (any nesting of chunked sections and switch cases, any file) "
-        "is rejected. Tie: ~65 instruction-level rules x 7 nesting contexts x 9 placements plus ~40 declaration-level edits are applied to valid trees; the REAL generator must reject each "
+        "Properties/C17.v has ~90 rule theorems: head-anchored rejection lemmas with hypotheses on the elaboration context for the context-sensitive rules, any-position statements for the context-insensitive ones "
+        "(unknown type, break / delimited array outside chunked) and generic propagation theorems (sequence, chunked, case, object, file, protocol, arbitrary path) that lift a context-insensitive violation to ANY position of ANY class body. "
+        "Tie: ~115 instruction-level rule snippets, each placed in a sample of 7 nesting contexts and several file/struct/packet placements, plus ~45 declaration-level edits are applied to valid trees; the REAL generator must reject each "
         "(oracle) and accept/reject must equal elab's verdict on every tree.",
    technique="Coq proof (error propagation through elaboration + per-rule rejection lemmas) + differential accept/reject correspondence on catalogued rule-violating edits",
    note=GEN_NOTE, ref="8 (C17)"),
@@ -178,7 +182,7 @@ CHECKS = {
         "equivariance), by induction over histories; the translated class simulates the model step for step (Bridge/B_sequencer.v); "
         "bounded-exhaustive + random histories on the implementation.",
    technique="Coq proof (invariant by induction over operation lists) + py2coq class bridge (simulation) + bounded-exhaustive histories",
-   note=COMMON_NOTE + "A SequenceStart is abstracted to its .value.", ref="8 (C13)"),
+   note=COMMON_NOTE + "The model abstracts a SequenceStart to its .value; the harness drives the sequencer with the real SequenceStart classes as well as with a duck-typed stub.", ref="8 (C13)"),
 }
 NA_REASON = "check not built yet (build in progress; see DESIGN.md section 12)"
 
